@@ -65,6 +65,15 @@ func pick(
 		err = whCtrl.Clone(ctx)
 		if err == nil {
 			err = whCtrl.Update(ctx)
+			if _, ok := Category(err).(rio.ErrorCategory); err != nil && !ok {
+				// (go-git's own error: a remote that cannot be fetched from right now is an unavailable warehouse --
+				//  the next one may do -- unless it is our own cancellation.)
+				if ctx.Err() != nil {
+					err = Errorf(rio.ErrCancelled, "cancelled")
+				} else {
+					err = Errorf(rio.ErrWarehouseUnavailable, "warehouse unavailable: fetch from %s failed: %s", addr, err)
+				}
+			}
 		}
 		switch Category(err) {
 		case nil:
